@@ -140,6 +140,7 @@ class RunResult:
         self.calcs = 0
         self.sim_steps = 0
         self.oracle_checks = 0
+        self.final_state = None  # hash-seed independent digest of the final world (cross-hash comparison)
 
     def count(self, key, n=1):
         self.counters[key] = self.counters.get(key, 0) + n
@@ -154,7 +155,7 @@ class RunResult:
                 "signature": hashlib.sha256("|".join(self.sig_parts).encode()).hexdigest()[:16],
                 "nontrivial": bool(self.nontrivial), "calcs": self.calcs,
                 "sim_steps": self.sim_steps, "oracle_checks": self.oracle_checks,
-                "nlog": len(self.log.lines)}
+                "nlog": len(self.log.lines), "final_state": self.final_state}
 
 
 # ------------------------------------------------------------------------------------------
